@@ -63,7 +63,7 @@ def gen(ctx):
 
 
 def correspond(ctx):
-    n = 400 if ctx.thorough() else 60
+    n = 1200 if ctx.thorough() else 60
     c = vlib.correspond(ctx, 'c17', 'C17', ['scripts=%d' % n], canon=canon, timeout=2400, nontrivial=nontrivial)
     c['name'] = 'pool-scripts'
     # a panic of the real pool on a well-formed history is a property-level fact by itself;
@@ -127,7 +127,7 @@ def search(ctx, hints):
         res['error'] = 'searcher build failed: ' + log[-1500:]
         return res
     broken = bool(hints.get('broken'))
-    nh = 300 if (ctx.thorough() or broken) else 40
+    nh = 800 if ctx.thorough() else (300 if broken else 40)
     rc, findings, stats, err = _run_mode(ctx, binp, 'search', ['histories=%d' % nh])
     if rc != 0:
         res['error'] = 'searcher exited %d: %s' % (rc, err[-800:])
@@ -148,7 +148,7 @@ def search(ctx, hints):
     logbase = os.path.join(ctx.work, 'race.log')
     for p in glob.glob(logbase + '*'):
         os.remove(p)
-    rounds = 12 if ctx.thorough() else 3
+    rounds = 24 if ctx.thorough() else 3
     rc, findings, stats, err = _run_mode(ctx, rbin, 'race', ['rounds=%d' % rounds],
                                          env_extra=dict(GORACE='log_path=%s halt_on_error=0 exitcode=0' % logbase),
                                          timeout=600 if ctx.thorough() else 150)
